@@ -512,7 +512,7 @@ impl Terminal for UnixTerminal {
                                 self.events_queue
                                     .push_back(TerminalEvent::Resize(self.size()?));
                                 #[cfg(feature = "verif-hooks")]
-                                verif_c17::rec(|| verif_c17::Rec::Pushed("Resize".into()));
+                                verif_c17::rec(|| verif_c17::Rec::Pushed("resize".into()));
                             } else {
                                 self.write_all(GET_TERM_SIZE)?;
                                 #[cfg(feature = "verif-hooks")]
@@ -537,7 +537,7 @@ impl Terminal for UnixTerminal {
                     verif_c17::rec(|| verif_c17::Rec::WakerNonZero);
                     self.events_queue.push_back(TerminalEvent::Wake);
                     #[cfg(feature = "verif-hooks")]
-                    verif_c17::rec(|| verif_c17::Rec::Pushed("Wake".into()));
+                    verif_c17::rec(|| verif_c17::Rec::Pushed("wake".into()));
                 }
             }
 
@@ -565,12 +565,12 @@ impl Terminal for UnixTerminal {
                             *term_size = size;
                             self.events_queue.push_back(TerminalEvent::Resize(size));
                             #[cfg(feature = "verif-hooks")]
-                            verif_c17::rec(|| verif_c17::Rec::Pushed("Resize".into()));
+                            verif_c17::rec(|| verif_c17::Rec::Pushed("resize".into()));
                         }
                     }
                     if !self.image_handler.handle(&mut self.write_queue, &event)? {
                         #[cfg(feature = "verif-hooks")]
-                        verif_c17::rec(|| verif_c17::Rec::Pushed(format!("{event:?}")));
+                        verif_c17::rec(|| verif_c17::Rec::Pushed(verif_c17::canon(&event)));
                         self.events_queue.push_back(event)
                     }
                 }
